@@ -203,7 +203,9 @@ func selectCurrentReplicaSet(daemonset *datadoghqv1alpha1.ExtendedDaemonSet, act
 	isEnded, requeueAfter = IsCanaryDeploymentEnded(daemonset.Spec.Strategy.Canary, upToDateRS, now)
 	isPaused, _ := IsCanaryDeploymentPaused(dsAnnotations, upToDateRS)
 	isValid := IsCanaryDeploymentValid(dsAnnotations, upToDateRS.GetName())
-	if isValid || (!isPaused && isEnded) {
+	// A canary marked as failed must be rolled back, never promoted because its duration elapsed.
+	isFailed := IsCanaryDeploymentFailed(upToDateRS)
+	if isValid || (!isPaused && !isFailed && isEnded) {
 		return upToDateRS, requeueAfter
 	}
 
